@@ -33,6 +33,15 @@ CLAIMED["C09"] = ("exploration",
    "Rows the kernel cannot produce are counted, not judged: self-sent signals to the pid-namespace init of the namespace runner, and self-sent signals the container init leaves ignored (SIG_IGN survives execve). The exit value is asserted only where the table defines it (exit codes, Signalled).",
    "generator-driven enumeration + property-based testing (rapid) against the documented table", "§3 C09")
 
+CLAIMED["C06"] = ("exploration",
+   "A helper process shapes its own descriptor table from the generated case (so the internal socketpair, the exec descriptor and the scratch duplicates land below, inside and above the listed numbers), starts the same forkexec.Runner twice and a probe running as the target reports fstat identity and flags of every open descriptor; the container variant does two consecutive Execves with generated lists. Slot i must be the caller's Files[i], close-on-exec clear, nothing else open, the Runner value unchanged and the second start identical.",
+   "The helper marks its own stdio close-on-exec (as the container init does) so that every unlisted descriptor seen in the program is the launcher's doing; listed numbers that are not open in the caller are not generated (caller error).",
+   "property-based testing (rapid) with a model of the expected descriptor table; probe self-report", "§3 C06")
+CLAIMED["C08"] = ("exploration",
+   "Generated RLimits records (zero/non-zero fields, CPUHard below/equal/above CPU, values around 2^32, 2^40, 2^63-1) are launched in sequences of 1..3 in each runner and the probe's getrlimit report of all 16 resources is compared with PrepareRLimit() and with the launcher's own limits; six limit-crossing workloads x three runners check the TLE/OLE/MLE/Normal verdicts and measurements; pipe.Buffer is fed by goroutine and real-process writers with totals around the cap and chunk sizes 1..65536 and checked for min(total,N+1) retained prefix bytes, full writes and Done.",
+   "CPU/memory verdict cases use >=3x margins; rows a pid-namespace init cannot produce (SIGXCPU/SIGXFSZ dropped by the kernel) are relaxed; container Execve has no time/memory bound of its own (cgroup), so only rlimit-driven verdicts are judged there.",
+   "property-based testing (rapid) + enumerated workloads; probe self-report", "§3 C08")
+
 NOT_YET = {}
 
 def main():
